@@ -4,7 +4,7 @@ sys.path.insert(0, os.path.join(HERE, 'lib')); sys.path.insert(0, HERE)
 from checks import wcommon
 
 META = dict(
-    functions=['mmd.c: mmd_engine_update_metavalue_for_key', 'writer.c: clean_string (metadata value normalisation used by meta_set_value), label_from_string (key normalisation used by meta_new / lookups)'],
+    functions=['mmd.c: mmd_engine_update_metavalue_for_key, strip_line_tokens_from_metadata', 'writer.c: meta_new, meta_set_value', 'writer.c: clean_string (metadata value normalisation used by meta_set_value), label_from_string (key normalisation used by meta_new / lookups)'],
     stubs=['d_string.c -> ds_model (ideal bounded string; refinement is C19)', 'mmd_engine_has_metadata -> reports the layout (end offset, key start offsets) of the metadata block the harness built'],
     assumptions=['values without backslash in c11_value (backslash-newline joining is a separate documented rule)'],
     outside=['block recognition through the parser, continuation-line joining through real line tokens, CLI -m/-e, <meta> emission'],
@@ -36,7 +36,13 @@ def harnesses(tier):
               unwind=26, timeout=900, mem_gb=6, functional=True, replay=False,
               bounds='two-key metadata block, value lengths %d/%d (driver-enumerated), value bytes, new value 0..2 bytes, separator space/tab symbolic; %s' % (v1, v2, ['update first key', 'update last key', 'add a new key'][uk]),
               desc='mmd_engine_update_metavalue_for_key: edited key reads the new value, other key and body unchanged')
-         for uk in (0, 1, 2) for (v1, v2) in ((1, 1), (0, 1), (1, 0), (2, 2))] + linetype(tier)
+         for uk in (0, 1, 2) for (v1, v2) in ((1, 1), (0, 1), (1, 0), (2, 2))] + linetype(tier) + [
+        dict(name='c11_strip_value_' + tn, src='c11/stripvalue.c', defs=dict(TERM=t, VL=3 if tier == 'quick' else 4, DS_CAP=16),
+             units=[dict(src='repo:mmd.c', cflags=['-include', 'vh_libc.h']), dict(src='repo:writer.c', cflags=['-include', 'vh_libc.h']), 'repo:token.c', 'repo:stack.c', 'repo:object_pool.c', 'repo:char.c', 'common/ds_model.c'],
+             unwind=12, unwindset=['label_from_string.0:4', 'label_from_string.1:4'], timeout=900, mem_gb=6, functional=True, pool_off=True, native_exclude=['scanners.c'],
+             bounds='value of %d arbitrary bytes (no line break, no backslash, already trimmed, single inner spaces); line followed by: %s' % (3 if tier == 'quick' else 4, tn.replace('_', ' ')),
+             desc='strip_line_tokens_from_metadata + meta_set_value: stored value == source value, whatever follows the line')
+        for t, tn in enumerate(['eof_without_newline', 'newline_then_eof', 'blank_line', 'next_key', 'crlf_then_eof'])]
 
 CLAIM = dict(
     text='CBMC compares the real value/key normalisation kernels of the metadata path with the documented reference on every string within '
